@@ -150,6 +150,8 @@ class _Runner(_Processor):
                 self._health_check_server.health_status = HealthCheckStatus.UNHEALTHY
         if self.stop_consume_event.is_set():
             consume_task.cancel()
+            # the loop may be giving back a message which it has taken already
+            await asyncio.wait({consume_task})
         await consumer.pause()
         return consumer
 
@@ -175,3 +177,6 @@ class _Runner(_Processor):
         if self._wait_for_cancel_task is not None:
             self._wait_for_cancel_task.cancel()
         self.cancel_event.set()
+        if self._tasks:
+            # let the cancelled tasks reject their messages before consumers are finished
+            await asyncio.wait(self._tasks)
